@@ -348,13 +348,14 @@ PROPS["C02"] = {
 }
 
 PROPS["C08"] = {
-    "lean_modules": ["P2.Props.C03", "P2.Props.C01", "P2.Props.C08b"],
+    "lean_modules": ["P2.Props.C03", "P2.Props.C01", "P2.Props.C08b", "P2.Props.C08c"],
     "audit_module": "P2.Audit.C08",
+    "extra_audit_modules": ["P2.Audit.C08c"],
     "harness_prop": "c08",
     "profile": "release",
     "judge": judge_c01,
     "trusted_base": PLONK_TB + ["the prover-side lookup columns (RE/Sum/LDC, multiplicities) are not modelled: tied through the verifier model's check_lookup_constraints and the honest-flow oracle (partial)"],
-    "level_text": "Lean 4: check_lookup_constraints / get_lut_poly inside the verifier model, lookup semantics in evalProg; dedicated lookup circuits (1-4 tables of 1..2 rows' worth, duplicate outputs, an input shared by all tables with different outputs; lookup counts at exact multiples of the slot count, +-1, heavy repetition, single used entry; 80 and 50 routed wires, 2-3 challenges) must prove, verify and carry the table's values (Rust evaluation, Lean evalProg, Lean verifier accepts); lookup outputs replaced class-wide by a wrong value or by ANOTHER table's value for the same input must be rejected by both verifiers",
+    "level_text": "(C08c, the ROW-LEVEL lookup argument, which the earlier theorems did not capture and where F-C08-1 lived: a model of one table's rows, the four selectors as selectors_lookup sets them, the s SLDC polynomials and the constraint system with the pinned index as a parameter; with the repaired pin (s-1) the constraints telescope to sum of table terms = sum of lookup terms, the system is satisfiable IFF the totals agree, and if the verifier's cleared-denominator row constraints are satisfiable for more challenges alpha than there are combinations then every looked-up combination is a table combination with non-zero multiplicity and the multisets agree (lookup_trace_sound, _mem, _multiset), conversely valid lookups are always provable (lookup_trace_complete); with the ORIGINAL pin (index 0) and s >= 2 the system is satisfiable for ARBITRARY terms (original_pin_unsound: the witness is the honest accumulator shifted by minus its final value — exactly the adversarial prover), for s = 1 both pins coincide; Plonk.checkLookupConstraints is shown term by term to be this system at GL2 (checkLookupConstraints_structure, model_rows_iff_verifier_rows, model_lookup_trace_sound). Not covered: the RE chain binding the LUT rows to the declared table, several tables sharing selectors, row-level vanishing from the quotient check) Lean 4: check_lookup_constraints / get_lut_poly inside the verifier model, lookup semantics in evalProg; dedicated lookup circuits (1-4 tables of 1..2 rows' worth, duplicate outputs, an input shared by all tables with different outputs; lookup counts at exact multiples of the slot count, +-1, heavy repetition, single used entry; 80 and 50 routed wires, 2-3 challenges) must prove, verify and carry the table's values (Rust evaluation, Lean evalProg, Lean verifier accepts); lookup outputs replaced class-wide by a wrong value or by ANOTHER table's value for the same input must be rejected by both verifiers",
     "level_note": "Found with this machinery and repaired in /repo: F-C08-1, a SOUNDNESS break of the lookup argument (initial Sum/LDC accumulator value not pinned: an adversarial prover got wrong (input, output) pairs accepted at the standard configuration); the adversarial prover is the guarded hook verif_hooks::SLDC_COMPENSATE and stays part of the check. logUp / RE-polynomial / telescoping theorems are being added; until then the lookup algebra is tied by correspondence only. Tables with duplicate inputs are outside the property (a table is a function).",
     "assumptions": ["FRI proximity soundness", "random oracle"],
     "rule": "adversarial prover (hook): per lookup circuit 2 wrong looked-up pairs x {honest prover, accumulator-offset prover}; 8 (thorough 40) lookup circuits x positive flow + 4-6 lookup-specific corruptions; distinct = distinct request lines",
